@@ -130,7 +130,8 @@ type c05Router struct {
 }
 
 func (r *c05Router) SendRaftMessages(nodeID uint64, database string, pt uint32, msg raftpb.Message) error {
-	from, to := int(msg.From)-1, int(pt)
+	// the real transport addresses the store process by node id; that store looks the partition up itself
+	from, to := int(msg.From)-1, int(nodeID)-1
 	r.mu.Lock()
 	blocked := to < 0 || to > 2 || from < 0 || from > 2
 	var eng *EngineImpl
@@ -474,17 +475,34 @@ func (g *c05Group) write(via string) *c05Fail {
 	}
 	g.logf("write %d via %s to replica %d (leader %d): acked=%v after %v %s", id, via, target.id, l.id, w.Acked, took, w.Err)
 	if via == "Wi" {
+		// The cut lasts until the connected majority has a leader of its own (whatever the write call did meanwhile),
+		// so the outcome does not depend on election jitter: the old leader is deposed and its uncommitted entry dropped.
+		var nl *c05Replica
+		for t := time.Duration(0); nl == nil; t += c05Tick {
+			synctest.Wait()
+			for _, r := range g.reps {
+				if r.up && r != l && r.node.VerifStatus().RaftState == raft.StateLeader {
+					nl = r
+				}
+			}
+			if nl == nil {
+				if t >= c05LeaderWait {
+					g.router.mu.Lock()
+					g.router.cut[l.id] = false
+					g.router.mu.Unlock()
+					return &c05Fail{Kind: "no_leader_with_majority_up", Detail: fmt.Sprintf("the two replicas that can reach each other elected no leader within %v while replica %d was cut off", c05LeaderWait, l.id)}
+				}
+				time.Sleep(c05Tick)
+			}
+		}
 		g.router.mu.Lock()
 		g.router.cut[l.id] = false
 		g.router.mu.Unlock()
-		// the connection is back: let one heartbeat round pass so that a deposed leader learns the new term
+		// the connection is back: let a heartbeat round pass so that the deposed leader learns the new term
 		time.Sleep(2 * c05Tick)
 		synctest.Wait()
-		if w.Acked {
-			// a write acknowledged by a leader that could not reach anybody cannot have been committed
-			return nil // judged by the state oracle: the write must survive
-		}
-		return nil
+		g.logf("Wi: replica %d was cut off until replica %d led the others", l.id, nl.id)
+		return nil // an acknowledgement given meanwhile is judged by the state oracle: the write must survive
 	}
 	if !w.Acked {
 		return &c05Fail{Kind: "write_not_accepted_with_leader_and_majority_up",
@@ -725,6 +743,11 @@ func (g *c05Group) stepCheck() *c05Fail {
 			kind := "acked_write_missing_on_up_replica"
 			if r.lagging && r.restarts > 0 {
 				kind = "restart_lost_applied_writes"
+				// the member replays its log from its own snapshot index (its own last flush): is that range still there?
+				first, _ := r.node.Store.GetFirstLast()
+				if sp, errSp := r.node.Store.Snapshot(); errSp == nil && first > 1 && first > sp.Metadata.Index {
+					kind = "restart_lost_writes_log_truncated_past_own_flush"
+				}
 			}
 			return &c05Fail{Kind: kind,
 				Detail: fmt.Sprintf("replica %d (restarts %d, catching up %v) holds %d acknowledged writes, must hold %d: {%s}; writes [%s]; raft: %s", r.id, r.restarts, r.lagging, have, need, st.String(), g.describeWrites(), g.describeRaft())}
@@ -769,10 +792,12 @@ func (g *c05Group) finalCheck() *c05Fail {
 	var states [3]string
 	var have [3]int
 	var detail string
-	for round := 0; round < 4; round++ {
-		if round == 0 {
+	for round := 0; round < 5; round++ {
+		switch round {
+		case 0: // nothing to wait for when everybody is already in step
+		case 1:
 			time.Sleep(c05ElectionTimeout())
-		} else {
+		default:
 			time.Sleep(c05LongT)
 		}
 		synctest.Wait()
@@ -1055,9 +1080,9 @@ func c05Main(t *testing.T, rep *kit.Report) {
 		depth int
 		alpha string
 	}
-	phases := []phase{{4, c05AlphaFull}}
+	phases := []phase{{3, c05AlphaFull}, {4, c05AlphaBase}}
 	if kit.Thorough() {
-		phases = []phase{{5, c05AlphaFull}, {6, c05AlphaBase}}
+		phases = []phase{{4, c05AlphaFull}, {6, c05AlphaBase}}
 	}
 	if d := kit.Getenv("VERIF_C05_DEPTH", ""); d != "" {
 		fmt.Sscanf(d, "%d", &depth)
